@@ -136,6 +136,12 @@ bool index_read(zckCtx *zck, char *data, size_t size, size_t max_length) {
         new->zck = zck;
         new->valid = 0;
         new->number = count;
+        if(idx_loc + new->comp_length < idx_loc ||
+           idx_loc + new->comp_length + zck->lead_size + zck->header_length <
+           idx_loc + new->comp_length) {
+            set_fatal_error(zck, "Integer overflow when reading index");
+            return false;
+        }
         idx_loc += new->comp_length;
         count++;
         zck->index.length = idx_loc;
@@ -145,6 +151,15 @@ bool index_read(zckCtx *zck, char *data, size_t size, size_t max_length) {
         else
             zck->index.first = new;
         prev = new;
+    }
+    if(length != size) {
+        set_fatal_error(zck, "Index entries don't end at the end of the index");
+        return false;
+    }
+    if(count == 0 || (size_t)count != index_count) {
+        set_fatal_error(zck, "Index count (%llu) doesn't match number of index "
+                        "entries (%i)", (long long unsigned) index_count, count);
+        return false;
     }
     free(zck->index_string);
     zck->index_string = NULL;
